@@ -537,7 +537,7 @@ fn civil_refs(level: u8) -> Vec<Rf> {
 /// middle of the window, T-1ns, T, T+1ns}; for folds also both instants that
 /// read the middle of the window.
 fn zoned_refs(r: &Report, level: u8) -> Vec<Rf> {
-    let quick_zones = ["America/New_York", "Australia/Lord_Howe", "America/Sao_Paulo", "Europe/London", "Antarctica/Troll", "America/Caracas"];
+    let quick_zones = ["America/New_York", "Australia/Lord_Howe", "America/Sao_Paulo", "Europe/London"];
     let lo = refmodel::cal::days_from_civil(1900, 1, 1) * 86_400;
     let hi = refmodel::cal::days_from_civil(2025, 1, 1) * 86_400;
     let mut out = vec![];
@@ -760,7 +760,10 @@ fn round_one(r: &Report, sec: &str, c: &RoundCase, s: usize, l: Option<usize>, i
             } else {
                 in_class(c, s, eff_l, inc)
             };
-            r.viol(sec, &format!("Span::round/{}:{}", panic_sig(&p), cls), cs(), p);
+            // a non-positive increment panics with a different message in the
+            // two build flavours (plain division by zero / ranged-integer check)
+            let what = if s >= D && inc <= 0 { "panic".to_string() } else { panic_sig(&p) };
+            r.viol(sec, &format!("Span::round/{}:{}", what, cls), cs(), p);
             return;
         }
         Ok(g) => g,
